@@ -631,6 +631,8 @@ class Runtime:
         interp.unsupported("item assignment on %r" % (c,))
 
     def getitem(self, interp, c, idx, node=None):
+        if isinstance(idx, slice) and not isinstance(c, (list, tuple, bytes, str, Obj)):
+            return self.getslice(interp, c, idx.start, idx.stop, idx.step, node)
         if isinstance(c, PDict):
             i = self.dict_find(interp, c, idx)
             if i is None:
